@@ -35,7 +35,7 @@ func (r *runner) faultStep(o *Op, h *handle) error {
 	}
 	var seen, fired int32
 	r.end.SetWriteHook(func(p []byte) {
-		msg, _, err := ref9p.Decode(p, r.c.Dotu)
+		msg, _, err := ref9p.Decode(p, r.dotu)
 		if err != nil || msg.Type != wantType {
 			return
 		}
@@ -92,7 +92,7 @@ func (r *runner) faultStep(o *Op, h *handle) error {
 		}
 	}
 	hx.Label(fmt.Sprintf("fault %s %s: %s", o.Kind, o.Fault, outcome))
-	hx.NonTrivial("fault", r.nm, r.c.Dotu, o.Kind, o.Fault, o.FaultAt, lenClass(l, r.u), cntClass(cnt, r.u), outcome)
+	hx.NonTrivial("fault", r.nm, r.dotu, o.Kind, o.Fault, o.FaultAt, lenClass(l, r.u), cntClass(cnt, r.u), outcome)
 	what := ""
 	if didFire {
 		what = fmt.Sprintf(" (fault: %s exactly before %s #%d of this call; %d such requests were sent)", o.Fault, ref9p.TypeName(wantType), o.FaultAt, pieces)
